@@ -336,6 +336,35 @@ struct _spawn_future_op_base {
 
         return;
 
+      case _future_state::abandoned:
+        // the future was connected, received a stop request (which abandoned
+        // the operation) and is now being destroyed without having been
+        // started; negotiate clean-up with the spawned operation exactly as a
+        // started future does
+        if (state_.compare_exchange_strong(
+                state,
+                _future_state::complete,
+                // on success, publish our writes to the still-running spawned
+                // operation
+                std::memory_order_release,
+                // on failure, consume the now-finished operation's writes
+                std::memory_order_acquire)) {
+          // we gave clean-up responsibility to the spawned operation
+          return;
+        }
+
+        // the spawned operation finished first and left clean-up to us
+        UNIFEX_ASSERT(state == _future_state::complete);
+
+        [[fallthrough]];
+
+      case _future_state::complete:
+        // abandoned, and the spawned operation has already finished and handed
+        // ownership of the operation state to the future
+        deleter_(this, state);
+
+        return;
+
       default:  // should never happen
         std::terminate();
     }
